@@ -10,13 +10,16 @@ import (
 	"os"
 	"os/exec"
 	"runtime"
+	"strings"
 	"sync"
 	"sync/atomic"
 	"testing"
 	"time"
 
 	"github.com/cloudwego/gopkg/bufiox"
+	"github.com/cloudwego/gopkg/protocol/thrift"
 	"github.com/cloudwego/gopkg/protocol/thrift/apache"
+	"github.com/cloudwego/gopkg/protocol/thrift/base"
 	"github.com/cloudwego/gopkg/verifharness/evid"
 	"pgregory.net/rapid"
 )
@@ -58,6 +61,29 @@ type flakyRW struct {
 func (f *flakyRW) ReadableLen() int            { return f.n }
 func (f *flakyRW) Read(p []byte) (int, error)  { return minInt(f.rn, len(p)), f.rerr }
 func (f *flakyRW) Write(p []byte) (int, error) { return minInt(f.wn, len(p)), f.werr }
+
+// bridgeArg gives the value handed to a callback at step i: whatever the caller passes must arrive as it is - also
+// values the library could handle by itself (the shipped FastCodec structs, exceptions), nil and typed nil.
+func bridgeArg(i int) interface{} {
+	switch i % 8 {
+	case 0:
+		return &struct{ a int }{i}
+	case 1:
+		return &base.Base{LogID: "x"}
+	case 2:
+		return thrift.NewApplicationException(int32(i), "m")
+	case 3:
+		return (*base.BaseResp)(nil)
+	case 4:
+		return nil
+	case 5:
+		return "a string"
+	case 6:
+		return &base.BaseResp{StatusMessage: strings.Repeat("s", 5000)}
+	default:
+		return thrift.NewProtocolException(1, "p")
+	}
+}
 
 // lenLike has every length-like method one could think of, except ReadableLen.
 type lenLike struct{ bytes.Buffer }
@@ -258,14 +284,16 @@ func checkBridge(c BridgeCase, cv *cov) (v *evid.Violation) {
 			case "reg_read":
 				regRead = true
 				rd := bufiox.NewBytesReader([]byte{1})
-				val := &struct{ a int }{i}
+				val := bridgeArg(i)
+				calls := 0
 				apache.RegisterThriftRead(func(r bufiox.Reader, x interface{}) error {
-					if r != bufiox.Reader(rd) || x != interface{}(val) {
+					calls++
+					if r != bufiox.Reader(rd) || x != val {
 						return errors.New("wrong argument")
 					}
 					return retErr
 				})
-				if err := apache.ThriftRead(rd, val); err != retErr {
+				if err := apache.ThriftRead(rd, val); err != retErr || calls != 1 || rd.ReadLen() != 0 {
 					v = evid.Failf("step %d ThriftRead with a registered callback returned %v, want the callback's result (arguments passed through unchanged)", i, err)
 					return
 				}
@@ -281,14 +309,16 @@ func checkBridge(c BridgeCase, cv *cov) (v *evid.Violation) {
 				regWrite = true
 				var tgt []byte
 				wr := bufiox.NewBytesWriter(&tgt)
-				val := &struct{ a int }{i}
+				val := bridgeArg(i)
+				calls := 0
 				apache.RegisterThriftWrite(func(w bufiox.Writer, x interface{}) error {
-					if w != bufiox.Writer(wr) || x != interface{}(val) {
+					calls++
+					if w != bufiox.Writer(wr) || x != val {
 						return errors.New("wrong argument")
 					}
 					return retErr
 				})
-				if err := apache.ThriftWrite(wr, val); err != retErr {
+				if err := apache.ThriftWrite(wr, val); err != retErr || calls != 1 || wr.WrittenLen() != 0 {
 					v = evid.Failf("step %d ThriftWrite with a registered callback returned %v, want the callback's result", i, err)
 					return
 				}
@@ -369,13 +399,15 @@ func checkBridge(c BridgeCase, cv *cov) (v *evid.Violation) {
 		for k, n := range append(append([]int{}, c.Readable...), 9, 0, 3) {
 			fl.n = n
 			fl.rn, fl.rerr, fl.wn, fl.werr = k%4, nil, (k+1)%5, nil
+			sentinels := []error{ioErr, io.ErrClosedPipe, os.ErrClosed, io.ErrUnexpectedEOF, os.ErrDeadlineExceeded, io.ErrShortWrite, context.Canceled}
+			e1, e2 := sentinels[k%len(sentinels)], sentinels[(k/2+1)%len(sentinels)]
 			switch k % 4 {
 			case 1:
-				fl.werr = ioErr
+				fl.werr = e1
 			case 2:
-				fl.rerr = ioErr
+				fl.rerr = e1
 			case 3:
-				fl.werr, fl.rerr, fl.wn = ioErr, io.EOF, 8
+				fl.werr, fl.rerr, fl.wn = e1, e2, 8
 			}
 			buf8 := make([]byte, 8)
 			wn, werr := flTr.Write(buf8)
